@@ -44,7 +44,13 @@ type Server struct {
 	closed    bool
 	faults    []bool
 	calls     int
-	log       []string
+	log       []entry
+}
+
+type entry struct {
+	kind string
+	id   int
+	flag string
 }
 
 func New() *Server {
@@ -76,7 +82,14 @@ func (s *Server) Calls() int {
 func (s *Server) Log() []string {
 	s.mu.Lock()
 	defer s.mu.Unlock()
-	return append([]string{}, s.log...)
+	out := make([]string, len(s.log))
+	for i, e := range s.log {
+		out[i] = fmt.Sprintf("%s#%d", e.kind, e.id)
+		if e.flag != "" {
+			out[i] += "!" + e.flag
+		}
+	}
+	return out
 }
 
 // Committed returns a copy of the committed data.
@@ -112,11 +125,7 @@ func (s *Server) tick() bool {
 }
 
 func (s *Server) emit(kind string, id int, flag string) {
-	e := fmt.Sprintf("%s#%d", kind, id)
-	if flag != "" {
-		e += "!" + flag
-	}
-	s.log = append(s.log, e)
+	s.log = append(s.log, entry{kind, id, flag})
 }
 
 // Conn implements postgres.PgInterface.
